@@ -188,6 +188,29 @@ func nested(n int, m int) {
 	}
 	wg.Wait()
 }
+var sink int
+func worker(k int) {
+	defer wg.Done()
+	res[k%4096] = work(k, 4)
+}
+// go statement on a NAMED function (no literal captures the statement's wrapper frame),
+// followed at once by blocks with locals and calls in the spawning goroutine
+func spawnNamed(n int) {
+	for i := 0; i < n; i++ {
+		wg.Add(1)
+		go worker(i)
+		{
+			a := i
+			b := a + 1
+			sink += b - a
+			{
+				c := work(a, 1)
+				sink += c - a
+			}
+		}
+	}
+	wg.Wait()
+}
 func seq(n int) {
 	for i := 0; i < n; i++ {
 		wg.Add(1)
@@ -218,6 +241,30 @@ func c33Drivers() []c33Driver {
 			for _, k := range []int{0, 1, n / 2, n - 1} {
 				if r := g.Eval(fmt.Sprintf("res[%d]", k)); r.String() != fmt.Sprintf("[int:%d]", k) {
 					return fmt.Sprintf("res[%d] = %s", k, r.String())
+				}
+			}
+			return ""
+		}},
+		{"go-named-function-then-blocks", func(g *gm.Interp, scale int) string {
+			n := 300 * scale
+			if n > 4000 {
+				n = 4000
+			}
+			for _, procs := range []int{1, 4} {
+				old := runtime.GOMAXPROCS(procs)
+				g.Eval("sink = 0")
+				r := g.Eval(fmt.Sprintf("spawnNamed(%d)", n))
+				runtime.GOMAXPROCS(old)
+				if r.Panicked {
+					return "panic: " + r.Panic
+				}
+				if r := g.Eval("sink"); r.String() != fmt.Sprintf("[int:%d]", n) {
+					return fmt.Sprintf("sink = %s, want %d", r.String(), n)
+				}
+				for _, k := range []int{0, n / 2, n - 1} {
+					if r := g.Eval(fmt.Sprintf("res[%d]", k)); r.String() != fmt.Sprintf("[int:%d]", k) {
+						return fmt.Sprintf("res[%d] = %s", k, r.String())
+					}
 				}
 			}
 			return ""
